@@ -174,8 +174,10 @@ P = {
   note=TB,
   tech="Lean 4 proof (GF(2)-linear algebra of the BCH code; sharded decide +kernel for the distance bound) + tables + correspondence"),
  'C12': dict(
-  text="PROVED over all selection histories from the fresh-import state and all strings: after any history params = "
-       "the last selected chain (coreparams the same object from the first SelectParams on); round trip "
+  text="PROVED over all selection histories from the fresh-import state and all strings: after any history "
+       "bitcoin.params carries the last selected chain's address/network values and bitcoin.core.coreparams that "
+       "chain's consensus values (mainnet before any call; whether the two globals are one object is a fact about the "
+       "model only and is not checked); round trip "
        "script→address→text→address→script for the 4 templates × 4 chains with the prescribed class/prefix/payload; "
        "refuse_total (any text is a valid address of the selected chain or CBitcoinAddressError — no other outcome); "
        "cross-chain refusal (base58: unconditional; bech32 vs base58 re-reading: under the explicit 32-bit-checksum "
